@@ -1,3 +1,4 @@
 pub mod engine;
+pub mod envref;
 pub mod report;
 pub mod snapshot;
